@@ -155,7 +155,7 @@ def allFrom (p : Int → Bool) : Nat → Int → Bool
     redo the operation exactly.  Outside it: `set_columns_width` / `set_rows_height` over a HIDDEN
     column/row (`get_column_width` answers 0 for it, and undo then stores 0 — finding F01c), states
     whose stored timezone/locale/frozen counts would themselves be rejected by the setters, and —
-    not yet proved — `rename_sheet`. -/
+    for the three sheet-list operations, books whose names are not valid and unique. -/
 def dom (b : Book) : Op → Bool
   | .setName _ => true
   | .setTimezone _ => env.validTz b.tz
@@ -172,7 +172,15 @@ def dom (b : Book) : Op → Bool
   | .setSheetColor _ _ => true
   | .hideSheet _ => true
   | .unhideSheet _ => true
-  | .renameSheet _ _ => false
+  | .renameSheet i n =>
+    -- after the rename the old name is still valid and not the name of ANOTHER sheet
+    -- (true of well-formed books: names are valid and unique; checked here, not proved)
+    match b.sheets[i]?, mRenameSheet env b i n with
+    | some sh, .ok b' => isValidSheetName sh.name &&
+        (match sheetIndexByName env b' sh.name with
+          | some j => decide (j = i)
+          | none => true)
+    | _, _ => true
   | .newSheet =>
     -- the generated name is valid and free (always true of `new_sheet`'s search; checked, not proved)
     !b.sheets.isEmpty && isValidSheetName (mNewSheet env b).2.1 &&
@@ -779,7 +787,49 @@ theorem op_chain (b : Book) (o : Op) (ds : List Diff) (hd : dom env b o = true)
       simp only [hs, mSetSheetState, done, Option.some.injEq] at hp ⊢
       subst hp
       exact Chain.single env (linked1_setSheetState env hs)
-  | renameSheet s n => simp [dom] at hd
+  | renameSheet i n =>
+    simp only [doOp, renameSheet] at herr hp ⊢
+    cases hs : getSheet b i with
+    | error e => simp [hs, fail] at herr
+    | ok sh =>
+      have hsome := getSheet_ok hs
+      simp only [hs] at herr hp ⊢
+      by_cases hsame : sh.name = n
+      · simp [hsame] at hp
+      · simp only [hsame, if_false] at herr hp ⊢
+        cases hr : mRenameSheet env b i n with
+        | error e => simp [hr, fail] at herr
+        | ok b' =>
+          simp only [dom, hsome, hr, Bool.and_eq_true] at hd
+          obtain ⟨hvalid, hdup⟩ := hd
+          simp only [hr, done, Option.some.injEq] at hp ⊢
+          subst hp
+          -- the successful rename wrote `{ sh with name := n }` at index `i`
+          have hb' : b' = setSheet b i { sh with name := n } := by
+            unfold mRenameSheet at hr
+            split at hr
+            · cases hr
+            · split at hr
+              · split at hr
+                · cases hr
+                · simp only [hs] at hr; injection hr with hr; exact hr.symm
+              · simp only [hs] at hr; injection hr with hr; exact hr.symm
+          refine Chain.single env ⟨?_, by simp only [fwd1, hr]⟩
+          have hget : getSheet b' i = .ok { sh with name := n } := by
+            rw [hb']; exact getSheet_setSheet hs
+          have hfin : setSheet b' i { ({ sh with name := n } : Sheet) with name := sh.name } = b := by
+            rw [hb', setSheet_setSheet]
+            have : ({ ({ sh with name := n } : Sheet) with name := sh.name } : Sheet) = sh := by
+              cases sh; rfl
+            rw [this]; exact setSheet_same hs
+          simp only [back1, mRenameSheet, hvalid, Bool.not_true, Bool.false_eq_true, if_false]
+          cases hj : sheetIndexByName env b' sh.name with
+          | none => simp only [hget]; exact congrArg _ hfin
+          | some j =>
+            rw [hj] at hdup
+            simp only [decide_eq_true_eq] at hdup
+            simp only [hdup, ne_eq, not_true_eq_false, if_false, hget]
+            exact congrArg _ hfin
   | newSheet =>
     simp only [dom, Bool.and_eq_true, Bool.not_eq_true'] at hd
     obtain ⟨⟨hne, hvalid⟩, hfree⟩ := hd
